@@ -9,7 +9,7 @@ CLAIMED = True
 PROP = dict(
     proof_modules=["VrpProofs.C03"],
     model_modules=["VrpModel.Route", "VrpModel.C03", "VrpModel.Prag", "VrpModel.Spec"],
-    drv="drv_c01", bin="c01", share_run=True,
+    drv="drv_c01", bin="c01", share_run=True, corpus_ids=["C01", "C02", "C03"],
     compare=S.make_compare("replay"), nontrivial=S.nontrivial, extra_evidence=S.extra, rule=S.RULE,
     modelled="the statistic fold of solution_writer.rs::create_tour (duration, distance, driving/serving/waiting/break split, cost) on the "
              "fragment without commute/parking and reserved times",
